@@ -437,19 +437,39 @@ def gen_case(ctx, idx, seed, root, big, state_override=None, now_override=None):
     ctx.note_state(want, data)
     # the real tool loads it: dumps from the generated state
     ok = compare_dumps(ctx, A, want, now, tag, rep)
+    # rewrite by the real tool: the model predicts the bytes; when no info time is clamped they are the installed bytes
+    times = [v & ~7 for k, v in s['info_runs'] if v]
+    monotone = all(0 < t <= now for t in times)
+    re_ = ctx.model.ask('reencode %x %s %s' % (now, A.model_conf(), L.hx(data)))
+    f2 = bytes.fromhex(re_[3:]) if re_.startswith('ok ') else None
     rc, out = A.run(['test-rewrite'], now=now)
     d2 = A.content(0)
     with ctx.lock:
         ctx.stats['commands'] += 1
         ctx.stats['files_checked'] += 1
-    if rc != 0 or d2 != data:
-        ctx.viol(tag + '_rewrite', '%s: the real `test-rewrite` (rc %d) does not reproduce the file encoded by the model from a well-formed state: '
-                 'first difference at byte %d of %d/%d; %s' % (tag, rc, first_diff(d2 or b'', data), len(d2 or b''), len(data), out[-200:].decode('latin1')), rep)
+    if rc != 0 or d2 != f2:
+        ctx.viol(tag + '_rewrite', 'MODEL-DRIFT %s: the real `test-rewrite` (rc %d) of the file encoded by the model differs from the model\'s own re-encoding: '
+                 'first difference at byte %d of %d/%d; %s' % (tag, rc, first_diff(d2 or b'', f2 or b''), len(d2 or b''), len(f2 or b''), out[-200:].decode('latin1')),
+                 rep, no_input=True)
+    elif monotone and d2 != data:
+        ctx.viol(tag + '_rewrite', '%s: `test-rewrite` does not reproduce a content file whose info times are all <= now: first difference at byte %d of %d/%d'
+                 % (tag, first_diff(d2, data), len(d2), len(data)), rep)
     else:
+        if d2 != data:
+            with ctx.lock:
+                ctx.stats['backward_clock_rewrite_changes_bytes'] += 1
+        rc, out = A.run(['test-rewrite'], now=now)
+        d3 = A.content(0)
         with ctx.lock:
-            ctx.stats['tool_rewrite_identical'] += 1
-        if A.content(1) != d2:
-            ctx.viol(tag + '_copies', '%s: content copies differ after test-rewrite' % tag, rep)
+            ctx.stats['commands'] += 1
+        if rc != 0 or d3 != d2:
+            ctx.viol(tag + '_fixpoint', '%s: a second `test-rewrite` at the same clock changes the file again (rc %d): first difference at byte %d'
+                     % (tag, rc, first_diff(d3 or b'', d2 or b'')), rep)
+        else:
+            with ctx.lock:
+                ctx.stats['tool_rewrite_identical'] += 1
+            if A.content(1) != d2:
+                ctx.viol(tag + '_copies', '%s: content copies differ after test-rewrite' % tag, rep)
     with ctx.lock:
         if len(data) < 100000:
             ctx.valid_files.append((A.model_conf(), data))
